@@ -1271,13 +1271,59 @@ func (c *FnCtx) loopClauses(li *loopInfo) []*Clause {
 	return out
 }
 
+func (e *Engine) isLemmaOrAxiom(name string) bool {
+	for _, lem := range e.specs.Lemmas {
+		if lem.Name == name {
+			return true
+		}
+	}
+	for _, ax := range e.specs.Axioms {
+		if ax.Name == name {
+			return true
+		}
+	}
+	return false
+}
+
+// dropInvariant records a written loop invariant that no longer names variables of the loop it is keyed to
+// (the loop was rewritten). The invariant is neither assumed nor checked; the function's remaining
+// obligations are still generated, so a postcondition that depended on it fails by name instead of the
+// whole function going undecided.
+func (c *FnCtx) dropInvariant(cl *Clause, err error) {
+	msg := fmt.Sprintf("line %d: %v", cl.Line, err)
+	for _, d := range c.dropped {
+		if d == msg {
+			return
+		}
+	}
+	c.dropped = append(c.dropped, msg)
+}
+
 func (c *FnCtx) assumeInvariants(li *loopInfo) {
 	env := c.invEnv(li, nil, c.cur)
+	if c.con != nil {
+		for _, cl := range c.con.Clauses {
+			if cl.Kind != "loopuse" || cl.Loop != li.ordinal {
+				continue
+			}
+			if call, ok := cl.E.(*ECall); !ok || !c.eng.isLemmaOrAxiom(call.Fun) {
+				c.dropInvariant(cl, fmt.Errorf("use needs a lemma or axiom application"))
+				continue
+			}
+			env.heap = c.cur
+			t, err := env.evalBool(cl.E)
+			if err != nil {
+				c.dropInvariant(cl, err)
+				continue
+			}
+			c.assume(implies(c.reach[li.header], t))
+		}
+	}
 	for _, cl := range c.loopClauses(li) {
 		env.heap = c.cur
 		t, err := env.evalBool(cl.E)
 		if err != nil {
-			c.attachErr = fmt.Sprintf("line %d: %v", cl.Line, err)
+			c.dropInvariant(cl, err)
 			continue
 		}
 		c.assume(implies(c.reach[li.header], t))
@@ -1323,7 +1369,7 @@ func (c *FnCtx) checkInvariants(li *loopInfo, pred *ssa.BasicBlock) {
 		env.heap = c.cur
 		t, err := env.evalBool(cl.E)
 		if err != nil {
-			c.attachErr = fmt.Sprintf("line %d: %v", cl.Line, err)
+			c.dropInvariant(cl, err)
 			continue
 		}
 		// do not assume the obligation afterwards for other edges: edges are exclusive anyway
